@@ -130,6 +130,17 @@ pub fn explore(ctx: &Ctx, shard: usize, n: usize) -> Report {
                 let (i2, f2) = if kind == "alias-from" { (into.clone(), l2) } else { (l2, from.clone()) };
                 judge(rep, &Case { groups: groups.clone(), words: words.clone(), into: i2, from: f2, kind: kind.into(), at: (0, li), fault: f }); } } }
         }
+        // errors that generated rules run into (an unbound alpha, a contradictory modifier, an uneven set ... whatever the full-grammar
+        // generator happens to produce): not from the catalogue, so nothing is known about them except where they were planted
+        for _ in 0..300 {
+            let ast = rand_rule(r, &RuleCfg::default());
+            let f = plain(&ast);
+            let w = witness_word(&ast, r).unwrap_or_else(|| rand_word(r, &WordCfg::default()));
+            let gi = r.below(groups.len()); let li = r.below(groups[gi].len() + 1);
+            let mut g2: Vec<Vec<String>> = groups.iter().map(|g| g.iter().map(|l| if l.trim().is_empty() { l.clone() } else { format!(";; {l}") }).collect()).collect();
+            g2[gi].insert(li, f.clone());
+            judge(rep, &Case { groups: g2, words: vec![w], into: vec![], from: vec![], kind: "rule-runtime".into(), at: (gi, li), fault: f });
+        }
         for wi in 0..=words.len() { for f0 in WORD_FAULTS.iter() { for f in [f0.to_string(), format!("{}{f0}", *r.pick(&["ã", "ɚ", "gõ."]))] { let mut w2 = words.clone(); w2.insert(wi, f.clone()); judge(rep, &Case { groups: groups.clone(), words: w2, into: vec![], from: from.clone(), kind: "word".into(), at: (0, wi), fault: f }); } } }
     });
     let _ = (ctx, shard);
